@@ -667,7 +667,9 @@ FormatterToHTML::processingInstruction(
                 accumContent(XalanUnicode::charSpace);
             }
 
-            writeCharacters(data, dataLength);
+            // Like the data of a comment, the data of a processing
+            // instruction is literal: there is no escaping inside one.
+            accumCommentData(data);
         }
 
         accumContent(XalanUnicode::charGreaterThanSign); // different from XML
